@@ -109,10 +109,13 @@ func init() {
 				tests = items
 			}
 		}
-		if shouldClean && !isCI {
-			removed = "1"
-		} else if len(secs) == 0 {
+		if len(secs) == 0 {
+			// nothing listed: the summary carries no wording; report the mode the case asked for (decided from the case's
+			// environment here, not by the library) so that the field is defined
 			removed = "0"
+			if !isCI && (updateVAR == "true" || updateVAR == "clean") {
+				removed = "1"
+			}
 		}
 		printed := "0"
 		if strings.Contains(out, "Snapshot Summary") {
